@@ -30,11 +30,15 @@ Parts (every one a complete enumeration of a stated finite space, simplest first
            and (snapmod and bin2sna) the complete product of --poke range specs: span 0..5 x
            step {omitted,1..4} x {set,^,+} x anchors at RAM start / paged-bank boundary /
            memory end and, bank-prefixed, bank start / mid-bank / bank end (poke_letters)
+           and (snapmod) the --patch file length x start address product: lengths on both
+           sides of 16K / 32K / 48K x starts {16384, mid-RAM, ending one short of / exactly at
+           65535}; bank-prefixed: lengths up to the bank size x offsets likewise (patch_letters)
   bin2sna  the same for --reg/--state/--poke (and -b/-p/-s) x {48K, --page, 128K file}
            x {.z80,.szx}, as a differential against the option-less run
 """
 import itertools
 import os
+import re
 import zlib
 
 from .. import core, tools
@@ -442,6 +446,19 @@ class Model:
         addr = num(addr)
         if page is not None:
             self.notes.add('patch_page')
+            if len(data) > 5 and addr % PAGE + len(data) == PAGE:
+                self.notes.add('patch_page_to_bank_end')
+            if len(data) == PAGE:
+                self.notes.add('patch_page_whole_bank')
+        else:
+            if len(data) > PAGE:
+                self.notes.add('patch_longer_than_16k')
+            if len(data) > 2 * PAGE:
+                self.notes.add('patch_longer_than_32k')
+            if len(data) == 3 * PAGE:
+                self.notes.add('patch_whole_ram')
+            if len(data) > 5 and addr + len(data) == 65536:
+                self.notes.add('patch_to_memory_end')
         for k, v in enumerate(data):
             cell = self._cell(page, addr + k)
             if cell is not None:
@@ -458,7 +475,7 @@ class Model:
         elif kind == 'move':
             self.move(val)
         elif kind == 'patch':
-            self.patch(val, patch_data)
+            self.patch(val, patch_bytes(patch_file_len(val)))
         elif kind == 'border':
             self.f['border'] = num(val)
         elif kind == 'stack':
@@ -474,6 +491,53 @@ class Model:
 
 PATCH_DATA = bytes((0xED, 0xED, 0x00, 0x01, 0xED))
 PATCH = '{PATCH}'
+_PATCH_RE = re.compile(r'\{PATCH(?::(\d+))?\}')
+
+
+def patch_file_len(spec):
+    """Length of the patch file a spec names: {PATCH} = the 5-byte file, {PATCH:n} = n bytes."""
+    m = _PATCH_RE.search(spec)
+    return None if m.group(1) is None else int(m.group(1))
+
+
+def patch_bytes(n):
+    """Contents of the patch file of length n (None: the short ED-laden one): never zero (the
+    tool RAM is zero outside its windows), period 255 (out of phase with the 16K banks)."""
+    if n is None:
+        return PATCH_DATA
+    return bytes((k * 89 + 151) % 255 + 1 for k in range(n))
+
+
+PATCH_LENGTHS = (1, 2, 16383, 16384, 16385, 32767, 32768, 32769, 49151, 49152)
+PATCH_BANK_LENGTHS = (1, 2, 16383, 16384)
+PATCH_MID = 28672       # mid-bank: a patch from here crosses 32768 after 4K
+PATCH_BANK_MID = 7200
+
+
+def patch_letters(is128, quick):
+    """The --patch file-length x start-address product, restricted to what the documentation
+    defines (the patch lies inside RAM 16384..65535 / inside the 16K bank).  Without a bank
+    prefix: file length L in PATCH_LENGTHS (both sides of 16K, 32K, 48K) x start address in
+    {16384, 28672, 65535-L (ends one short of the top of memory), 65536-L (ends exactly at
+    65535)}, keeping start >= 16384 and start+L <= 65536.  With a bank prefix p (128K; quick p
+    in {0,7}, thorough 0..7): L in PATCH_BANK_LENGTHS (up to and at the bank size) x offset in
+    {0, 7200, 16383-L, 16384-L}, keeping 0 <= offset and offset+L <= 16384."""
+    out = []
+    for L in PATCH_LENGTHS:
+        starts = []
+        for a in (16384, PATCH_MID, 65535 - L, 65536 - L):
+            if a >= 16384 and a + L <= 65536 and a not in starts:
+                starts.append(a)
+        out += [('patch', '{},{{PATCH:{}}}'.format(a, L)) for a in starts]
+    if is128:
+        for p in (POKE_BANKS_QUICK if quick else range(8)):
+            for L in PATCH_BANK_LENGTHS:
+                offs = []
+                for a in (0, PATCH_BANK_MID, 16383 - L, 16384 - L):
+                    if a >= 0 and a + L <= PAGE and a not in offs:
+                        offs.append(a)
+                out += [('patch', '{}:{},{{PATCH:{}}}'.format(p, a, L)) for a in offs]
+    return out
 
 _REG_NAMES = ('a', 'f', 'b', 'c', 'bc', 'd', 'e', 'de', 'h', 'l', 'hl', '^a', '^f', '^b', '^c', '^bc', '^d', '^e',
               '^de', '^h', '^l', '^hl', 'ix', 'iy', 'sp', 'pc', 'i', 'r', 'memptr')
@@ -589,6 +653,10 @@ def option_cases(tier, seed):
             is128 = kind[1] != '48K' if tool == 'snapmod' else kind[0] != '48K'
             for a in poke_letters(is128, quick):
                 yield tool, kind, [a]
+        if tool == 'snapmod':
+            for kind in (kinds if quick else allkinds):
+                for a in patch_letters(kind[1] != '48K', quick):
+                    yield tool, kind, [a]
         for ki, kind in enumerate(kinds):
             if quick and tool == 'bin2sna' and (ki + seed) % 2:
                 # quick: option pairs on three of the six (input, format) kinds - each
@@ -626,7 +694,7 @@ class Checker:
         self.executions = 0
         self.guards = {}
         self._cache = {}
-        self.patch_file = self.put('patch.bin', PATCH_DATA)
+        self.patch_files = {}
 
     def g(self, name, n=1):
         self.guards[name] = self.guards.get(name, 0) + n
@@ -643,6 +711,13 @@ class Checker:
         except OSError:
             pass
         return p
+
+    def patch_arg(self, spec):
+        """The spec with its patch file placeholder replaced by a real file (made on first use)."""
+        n = patch_file_len(spec)
+        if n not in self.patch_files:
+            self.patch_files[n] = self.put('patch.bin' if n is None else 'patch-{}.bin'.format(n), patch_bytes(n))
+        return _PATCH_RE.sub(lambda m: self.patch_files[n], spec)
 
     def put(self, name, data):
         p = self.fresh(name)
@@ -1060,7 +1135,7 @@ class Checker:
         opts = [tuple(o) for o in opts]
         argv = []
         for k, v in opts:
-            argv += [OPTION[tool][k], v.replace(PATCH, self.patch_file)]
+            argv += [OPTION[tool][k], self.patch_arg(v) if k == 'patch' else v]
         self._count_guards(tool, tuple(kind), opts, seed, kind[0] if tool == 'snapmod' else ('szx' if kind[1] == 'szx' else 'z80v3'))
         if tool == 'snapmod':
             tb = self._tool_base(tool, tuple(kind), seed)
@@ -1188,7 +1263,7 @@ def case_id(case):
         return 'image/{}/{}'.format(case['fill'], case['machine'])
     if p == 'state':
         return 'state/{}/{}'.format(case['machine'], ','.join('{}={}'.format(k, v) for k, v in case['dev'].items()) or 'base')
-    return '{}/{}/{}'.format(p, '-'.join(case['kind']), '+'.join('{}.{}'.format(k, v.replace(PATCH, 'F')) for k, v in case['opts']) or 'none')
+    return '{}/{}/{}'.format(p, '-'.join(case['kind']), '+'.join('{}.{}'.format(k, _PATCH_RE.sub(lambda m: 'F' + (m.group(1) or ''), v)) for k, v in case['opts']) or 'none')
 
 
 def _nontrivial(case):
@@ -1247,6 +1322,8 @@ REQUIRED_GUARDS = [
     'poke_step_divides_span', 'poke_step_not_dividing_span', 'poke_step_over_span',
     'poke_page_step_divides_span', 'poke_page_step_not_dividing_span', 'poke_page_step_over_span',
     'poke_range_to_bank_end', 'poke_range_to_memory_end',
+    'patch_longer_than_16k', 'patch_longer_than_32k', 'patch_whole_ram', 'patch_to_memory_end',
+    'patch_page_to_bank_end', 'patch_page_whole_bank',
     'pair_order_dependent', 'szx_only_field_on_z80',
 ]
 
@@ -1266,17 +1343,21 @@ def run(tier, seed):
              'bank 0..7 x destination bank in {{omitted, 0..7}} (72 specs), and as single options on the four snapmod (z80v3/szx x '
              '48K/128K) and six bin2sna input kinds the complete product of --poke range specs [p:]a-b[-c],[^+]v: span b-a in 0..5 x '
              'step c in {{omitted,1,2,3,4}} x operation {{set,^,+}} x anchor {{a=16384, a=49150, b=65535; with bank prefix p in {}: '
-             'a=0, a=56320, b=16383}}. states = distinct case classes (string / run / set of '
+             'a=0, a=56320, b=16383}}, and as single snapmod options ({}) the --patch product: without a bank prefix file length L in '
+             '{} x start address in {{16384, 28672, 65535-L, 65536-L}} (start >= 16384, start+L <= 65536); with bank prefix p in {}: '
+             'L in {} x bank offset in {{0, 7200, 16383-L, 16384-L}} (offset+L <= 16384). states = distinct case classes (string / run / set of '
              'deviating dimensions per machine / option-kind sequence per input kind); non-trivial = string contains ED, any run, '
              'any deviation, any option'.format(
                  9 if quick else 10, 6 if quick else 7, len(RUN_VALUES_QUICK) if quick else 255, list(RUN_LENGTHS),
                  '{0,7}' if quick else '0..7',
+                 'on the z80v3/szx x 48K/128K input kinds' if quick else 'on all nine input kinds', list(PATCH_LENGTHS),
+                 '{0,7}' if quick else '0..7', list(PATCH_BANK_LENGTHS),
                  ' (quick: register x register pairs on the machine selected by the seed, register x state pairs for R, A, I only)'
                  if quick else ' plus every T-state value 0..frame-1 of both frame lengths'),
         exhaustive=True,
         bound='quick: strings <= 9 / embedded <= 6, 7 run byte values, T-state boundary set; reduced register alphabet in option '
-              'pairs; bin2sna option pairs on 3 of the 6 (input kind, format) combinations; bank-prefixed poke range product on banks 0 and 7' if quick else
-              'thorough: strings <= 10 / embedded <= 7, all 255 run byte values, every T-state value, full option alphabet pairs, bank-prefixed poke range product on banks 0..7',
+              'pairs; bin2sna option pairs on 3 of the 6 (input kind, format) combinations; bank-prefixed poke range and patch products on banks 0 and 7, patch product on 4 of the 9 snapmod input kinds' if quick else
+              'thorough: strings <= 10 / embedded <= 7, all 255 run byte values, every T-state value, full option alphabet pairs, bank-prefixed poke range and patch products on banks 0..7, patch product on all 9 snapmod input kinds',
         assumptions=[
             'reference decoders mc/refs/snapfmt.py (written from the Z80 and ZX-State format descriptions) are the independent reader',
             'register values are inside the register width, tstates inside 0..frame-1 (SZX stores T-states unreduced; out of domain)',
@@ -1285,6 +1366,11 @@ def run(tier, seed):
             'RAM bank prefixes (p:) are used on 128K snapshots only; 48K files have no RAM banks and the bank a prefix would select is format dependent',
             'poke/move/patch operands stay inside 0..65535 and, with a bank prefix, inside the 16K bank (a banked move or patch that '
             'runs past the end of the bank is not defined by the documentation)',
+            'over-long patch files are not generated: the documentation of --patch ("apply a binary patch file at address a in RAM '
+            'bank p") does not say what happens to the part of a file that extends beyond address 65535 (no bank prefix: start+L > '
+            '65536, which includes every file longer than 49152 bytes) or beyond the end of the 16K bank (bank prefix: offset+L > '
+            '16384, which includes every file longer than 16384 bytes); a patch that starts in the ROM area (start < 16384) is not '
+            'generated either (snapshots hold no ROM). Every generated patch therefore names L RAM cells, all of which must change',
             'Z80 v1 files cannot represent PC=0 (PC=0 is the v2/v3 marker), so pc=0 is not generated for v1 input',
             'the relative order in which options of different kinds are applied is not documented: for a pair of options of different '
             'kinds whose effects do not commute either order is accepted (counted in guard pair_order_dependent); options of the same '
